@@ -503,7 +503,10 @@ class HomeKitConnection:
                 content_type=HttpContentTypes.TLV,
             )
         except HttpErrorResponse as e:
-            self.transport.close()
+            # The accessory may already have closed the connection behind its
+            # error reply, in which case there is no transport left to close
+            if self.transport:
+                self.transport.close()
             response = e.response
         body = TLV.decode_bytes(response.body, expected=expected)
         return body
